@@ -197,6 +197,26 @@ MORE = {
 }
 for k, v in MORE.items():
     CLAIMED[k]["text"] += v
+# seventh round
+MORE7 = {
+ "C01": " Something may already sit at the object's path before a clean (stale file, wrong-size pointers: D68).",
+ "C02": " Concurrent downloads are also STAGED: the first storage GET is held half way while a process started meanwhile comes and goes, its answer ignoring Range and cut after a few bytes.",
+ "C03": " `git lfs push <remote> <ref>...` is run directly with several nested and forking refs named in one command (campaign c03LfsPushRefs and an operation of the scenario): every object of a named ref that no remote-tracking ref covers must be on the server.",
+ "C04": " The include/exclude LISTS are a model too (PathList.cleanPaths; theorem list_elements_are_the_patterns_spelt: blanks around the commas and around the list change nothing), tied to tools.CleanPaths (corr.C04.paths); the scenarios write their lists with blanks around the commas.",
+ "C05": " The line classifier of the `git log -p` scanner is a regenerated fact (Gen.logDataPrefixes); theorem every_pointer_version_line_is_data ties it to the decoder's version URLs (D69); unpushed histories contain pointers written with the earlier version URLs.",
+ "C06": " The real-adapter campaign answers batch requests with 401 (once, twice, always) while a static credential helper keeps answering (D73).",
+ "C08": " Extra lines after a pointer may themselves be well-formed pointer lines (ext-*, size, oid, version); the oracle's notion of pointer text includes the spec's key order, independently of the decoder. Cleaning a pointer must leave nothing in lfs/tmp (D72) and store nothing also with a pointer extension configured (D20, now repaired).",
+ "C11": " Sub-sections named like, beginning or ending with the last component of a documented key; empty configuration files (D67b, theorem empty_file_contributes_nothing) and a .lfsconfig Git cannot parse beside settings of the user's own (D74) in the generated and the end-to-end cases.",
+ "C12": " Campaign c12Export: standalone `migrate export` of files committed as pointers in five spellings (canonical, CRLF, earlier version URL, blank first line, second final newline).",
+ "C13": " Which paths fsck expects to hold a pointer is a model (AttrFilter: fsck's include/exclude reading of the attribute lines vs Git's last-match rule — expected_pointer_paths_are_tracked, tracked_paths_are_expected_partial, the D21 witness, lockable_only_line_is_irrelevant), tied per raw file to what fsck names and to `git check-attr` (corr.C13.attr); attribute variants nested (D70), lockable-only line (D71), override (D21, known).",
+ "C15": " Batch-level 401 scripts with a static credential helper (D73); the Wait deadline of a queue case covers the waits the case may rightly take.",
+ "C16": " Campaign c16UnlockUncached: the user's own lock outside this clone's lock cache (taken elsewhere, or the cache lost), file edited / staged / clean, unlock by path or id, with and without --force.",
+ "C18": " The storage may refuse the first request for an object although it carries the offered Authorization while a credential helper answers: every resubmission must still carry the offered header exactly once.",
+ "C19": " Files in which a pattern is tracked from the start and a later line overrides it for a sub-tree (a changed line must stay where it is); rooted and unrooted spellings of one name side by side (D77: TrkSeq.about, theorem seq_unlock_takes_effect_on_the_exact_line).",
+ "C20": " After a successful uninstall no hook that git-lfs generated is left when none was the user's own (theorem uninstall_removes_every_own_hook, directed family with absent hook files: D76); custom filter.lfs.* values under uninstall (D75, known).",
+}
+for k, v in MORE7.items():
+    CLAIMED[k]["text"] += v
 ALL = ["C%02d" % i for i in range(1, 21)]
 m = {
  "version": 1,
